@@ -13,10 +13,9 @@
    * `norm_ok c`                  ASSUMPTION ABOUT THE OUTSIDE WORLD: normalize_in_place_if_needed, seen as a
                                   function on f32 bit patterns, preserves the length and is bitwise idempotent
                                   (measured by the harness on every vector of every run);
-   * `ops_accepted c ops = true`  no insert whose normalised vector the HNSW index refuses AFTER the WAL
-                                  append (non-finite / overflowing vectors).  That class is the known defect #1
-                                  of DESIGN.md §4 (the property is FALSE there: `C02_index_reject_refuted`);
-                                  it is exercised by C03, not by C02 histories. *)
+   No premise restricts the operations: since /repo commit ca4513e `insert` pre-flights the index's
+   acceptance checks before the WAL append, so the former exception (defect #1 of DESIGN.md §4: a vector
+   refused only after the append) is gone; `C02_rejected_insert_harmless` is the former counterexample. *)
 From Coq Require Import List NArith ZArith Bool.
 From Kyro Require Import Model.Amap Model.Backend Proofs.AmapProofs Proofs.BackendProofs.
 Import ListNotations.
@@ -25,7 +24,7 @@ Open Scope N_scope.
 (* Stopping at an operation boundary and recovering (strict mode) from the directory succeeds and
    yields exactly the live collection: same ids, bit-identical vectors, identical metadata. *)
 Theorem C02_restart_lossless : forall (c : cfg) (ops : list op),
-  wf_cfg c = true -> norm_ok c -> ops_accepted c ops = true ->
+  wf_cfg c = true -> norm_ok c ->
   let s := run c ops in
   exists s', recover c Strict (st_disk s) = Ok s' /\ st_store s' = st_store s.
 Proof. exact restart_lossless. Qed.
@@ -33,7 +32,7 @@ Proof. exact restart_lossless. Qed.
 (* Deleted documents never reappear and overwritten versions never resurface: for every id the
    restarted engine answers what the live engine answered. *)
 Theorem C02_no_resurrection : forall (c : cfg) (ops : list op) (id : N),
-  wf_cfg c = true -> norm_ok c -> ops_accepted c ops = true ->
+  wf_cfg c = true -> norm_ok c ->
   let s := run c ops in
   exists s', recover c Strict (st_disk s) = Ok s' /\ get (st_store s') id = get (st_store s) id.
 Proof. exact no_resurrection. Qed.
@@ -48,7 +47,7 @@ Proof. exact delete_then_absent. Qed.
    sequence number, which exceeds every sequence number left in the directory (log entries of the listed
    segments and the snapshot's last_wal_seq). *)
 Theorem C02_seq_monotone : forall (c : cfg) (ops : list op),
-  wf_cfg c = true -> norm_ok c -> ops_accepted c ops = true ->
+  wf_cfg c = true -> norm_ok c ->
   let s := run c ops in
   exists s', recover c Strict (st_disk s) = Ok s' /\ st_next_seq s' = st_next_seq s /\
     exists m, load_manifest (st_disk s) = Some m /\
@@ -60,7 +59,7 @@ Proof. exact seq_monotone. Qed.
    restart still succeeds with the same collection.  (Writes after a restart are covered by
    C02_restart_lossless itself, because `ops` may contain Restart anywhere.) *)
 Theorem C02_restart_chain : forall (c : cfg) (ops : list op) (n : nat),
-  wf_cfg c = true -> norm_ok c -> ops_accepted c ops = true ->
+  wf_cfg c = true -> norm_ok c ->
   st_store (run c (ops ++ repeat ORestart n)) = st_store (run c ops) /\
   exists s', recover c Strict (st_disk (run c (ops ++ repeat ORestart n))) = Ok s' /\
              st_store s' = st_store (run c ops).
@@ -68,7 +67,7 @@ Proof. exact restart_chain. Qed.
 
 (* The invariant behind all of the above (DESIGN.md §3.2 Backend.Inv) holds in every reachable state. *)
 Theorem C02_invariant : forall (c : cfg) (ops : list op),
-  wf_cfg c = true -> norm_ok c -> ops_accepted c ops = true -> Inv c (run c ops).
+  wf_cfg c = true -> norm_ok c -> Inv c (run c ops).
 Proof. exact run_inv. Qed.
 
 (* The effect list of an operation is exact, in EVERY state (no invariant needed): the next directory
@@ -77,22 +76,26 @@ Theorem C02_effects_exact : forall (c : cfg) (s : state) (o : op) s' out effs,
   step c s o = (s', out, effs) -> st_disk s' = apply_effs (st_disk s) effs.
 Proof. exact step_disk. Qed.
 
-(* ---- the excluded input class really violates the property (known defect #1; witness by evaluation) ---- *)
+(* ---- the former counterexample of defect #1, now harmless: the NaN overwrite is refused before anything
+   is logged, the live document survives the restart ---- *)
 Definition nonfinite (b : Z) : bool := (Z.eqb (Z.modulo (Z.div b 8388608) 256) 255).
 Definition wit_cfg : cfg :=
   mkCfg Euclidean 2 0 0 64 FsNever (fun v => Some v) (fun v => negb (existsb nonfinite v)).
-(* insert(1,[1.0,2.0]); insert(1,[NaN,2.0]) -> Err, live doc 1 intact, recovered collection has no doc 1 *)
+(* insert(1,[1.0,2.0]); insert(1,[NaN,2.0]) *)
 Definition wit_ops : list op :=
   [OInsert 1 [1065353216; 1073741824]%Z []; OInsert 1 [2143289344; 1073741824]%Z []].
 
-Theorem C02_index_reject_refuted :
-  wf_cfg wit_cfg = true /\ norm_ok wit_cfg /\ ops_accepted wit_cfg wit_ops = false /\
+Example C02_rejected_insert_harmless :
+  snd (fst (step wit_cfg (run wit_cfg [OInsert 1 [1065353216; 1073741824]%Z []])
+                 (OInsert 1 [2143289344; 1073741824]%Z []))) = OErrRejected /\
+  snd (step wit_cfg (run wit_cfg [OInsert 1 [1065353216; 1073741824]%Z []])
+            (OInsert 1 [2143289344; 1073741824]%Z [])) = [] /\
   let s := run wit_cfg wit_ops in
   exists s', recover wit_cfg Strict (st_disk s) = Ok s' /\
-             get (st_store s) 1 <> None /\ get (st_store s') 1 = None.
+             get (st_store s') 1 = Some (mkDoc [1065353216; 1073741824]%Z []).
 Proof.
-  split; [reflexivity|]. split; [intros v w H; inversion H; subst; auto|]. split; [vm_compute; reflexivity|].
-  eexists. split; [vm_compute; reflexivity|]. split; [vm_compute; discriminate|vm_compute; reflexivity].
+  split; [vm_compute; reflexivity|]. split; [vm_compute; reflexivity|].
+  eexists. split; vm_compute; reflexivity.
 Qed.
 
 (* ---- non-vacuity: the premises are satisfiable by a history that exercises overwrite, delete-then-
@@ -113,14 +116,14 @@ Proof.
 Qed.
 
 Example C02_nonvacuous :
-  wf_cfg ex_cfg = true /\ norm_ok ex_cfg /\ ops_accepted ex_cfg ex_ops = true /\
+  wf_cfg ex_cfg = true /\ norm_ok ex_cfg /\
   st_store (run ex_cfg ex_ops)
   = [(2, mkDoc [1; 1]%Z [([108], [3])]); (4, mkDoc [1; 1]%Z []); (5, mkDoc [1; 1]%Z [])] /\
   manifest_shape (run ex_cfg ex_ops) = Some (Some 10, 3) /\
   exists s', recover ex_cfg Strict (st_disk (run ex_cfg ex_ops)) = Ok s' /\
              st_store s' = st_store (run ex_cfg ex_ops) /\ st_next_seq s' = 11.
 Proof.
-  split; [reflexivity|]. split; [exact ex_norm_ok|]. split; [vm_compute; reflexivity|].
+  split; [reflexivity|]. split; [exact ex_norm_ok|].
   split; [vm_compute; reflexivity|]. split; [vm_compute; reflexivity|].
   eexists. split; [vm_compute; reflexivity|]. split; vm_compute; reflexivity.
 Qed.
@@ -132,5 +135,5 @@ Print Assumptions C02_seq_monotone.
 Print Assumptions C02_restart_chain.
 Print Assumptions C02_invariant.
 Print Assumptions C02_effects_exact.
-Print Assumptions C02_index_reject_refuted.
+Print Assumptions C02_rejected_insert_harmless.
 Print Assumptions C02_nonvacuous.
